@@ -12,15 +12,24 @@ package lib
 // plus small read helpers (ERC-20 balanceOf/totalSupply through the real EVM, module addresses).
 
 import (
+	"encoding/json"
 	"fmt"
 	"math/big"
 	"strings"
 
+	"cosmossdk.io/log"
 	sdkmath "cosmossdk.io/math"
+	abci "github.com/cometbft/cometbft/abci/types"
+	dbm "github.com/cosmos/cosmos-db"
 	sdk "github.com/cosmos/cosmos-sdk/types"
 	authtypes "github.com/cosmos/cosmos-sdk/x/auth/types"
 	ibctransfertypes "github.com/cosmos/ibc-go/v8/modules/apps/transfer/types"
+	ibcexported "github.com/cosmos/ibc-go/v8/modules/core/exported"
+	ibctypes "github.com/cosmos/ibc-go/v8/modules/core/types"
 	"github.com/ethereum/go-ethereum/common"
+	"github.com/spf13/viper"
+
+	"github.com/functionx/fx-core/v8/app"
 
 	"github.com/functionx/fx-core/v8/contract"
 	fxtypes "github.com/functionx/fx-core/v8/types"
@@ -251,4 +260,54 @@ func Coin(denom string, n int64) sdk.Coin { return sdk.NewCoin(denom, sdkmath.Ne
 
 func (t *Token) String() string {
 	return fmt.Sprintf("%s(%s erc20=%s aliases=%v ibc=%s)", t.Symbol, t.Kind, t.ERC20.Hex(), t.Aliases, t.IBCDenom)
+}
+
+
+// ---------------- lifecycle: genesis export + import ----------------
+
+// ExportImport is "the chain is stopped, its state exported to a genesis file, and a new chain is started from that
+// file", through the real application-level path: the block being built is committed (real end/begin blockers),
+// App.ExportAppStateAndValidators writes the genesis, a NEW application object on an empty database runs InitChain on
+// it.  The returned chain continues where the old one stopped (same keys, validators, time; operations go on its
+// Ctx, NextBlock works).  The only edit to the exported file: the built-in 09-localhost IBC client is exported although
+// the default allow-list does not name it, so it is added to the allow-list (without it the unchanged application
+// refuses its own export).  A panic or error anywhere on the way is returned.
+func (c *Chain) ExportImport() (nc *Chain, err error) {
+	defer func() {
+		if r := recover(); r != nil {
+			nc, err = nil, fmt.Errorf("PANIC in export/import: %v", r)
+		}
+	}()
+	if err = c.NextBlock(); err != nil {
+		return nil, err
+	}
+	exported, err := c.App.ExportAppStateAndValidators(false, []string{}, []string{})
+	if err != nil {
+		return nil, fmt.Errorf("export: %w", err)
+	}
+	v := viper.New()
+	for k, val := range c.Opts {
+		v.Set(k, val)
+	}
+	na := app.New(log.NewNopLogger(), dbm.NewMemDB(), nil, true, map[int64]bool{}, fxtypes.GetDefaultNodeHome(), v)
+	state := app.GenesisState{}
+	if err = json.Unmarshal(exported.AppState, &state); err != nil {
+		return nil, err
+	}
+	ibcGen := new(ibctypes.GenesisState)
+	na.AppCodec().MustUnmarshalJSON(state[ibcexported.ModuleName], ibcGen)
+	ibcGen.ClientGenesis.Params.AllowedClients = append(ibcGen.ClientGenesis.Params.AllowedClients, ibcexported.Localhost)
+	state[ibcexported.ModuleName] = na.AppCodec().MustMarshalJSON(ibcGen)
+	bz, err := json.Marshal(state)
+	if err != nil {
+		return nil, err
+	}
+	cp := app.CustomGenesisConsensusParams().ToProto()
+	if _, err = na.InitChain(&abci.RequestInitChain{Time: c.Time, ConsensusParams: &cp, AppStateBytes: bz, InitialHeight: exported.Height}); err != nil {
+		return nil, fmt.Errorf("InitChain on the exported state: %w", err)
+	}
+	nc = &Chain{App: na, ValSet: c.ValSet, ValKeys: c.ValKeys, Seed: c.Seed, Height: exported.Height - 1, Time: c.Time,
+		commit: c.commit, proposer: c.proposer, Opts: c.Opts}
+	nc.Ctx = na.GetContextForFinalizeBlock(nil).WithProposer(c.proposer).WithBlockTime(c.Time.Add(BlockStep)).WithBlockHeight(exported.Height)
+	return nc, nil
 }
